@@ -111,7 +111,9 @@ def run(repo: Repo, rep: Report, tier: str) -> None:
     pe = mod.functions.get("_parse_sse_event")
     if pe is None:
         raise AnalysisError("anchor vanished: _parse_sse_event")
-    _parse_event_rules(pe, rep)
+    from sa.report import with_flatten_fallback as _wff18
+
+    _wff18(rep, pe, _parse_event_rules)  # the per-line field split may live in a helper of the module
 
     # ---------------------------------------------------------------- R18.4 ndjson
     nd = decoders.get("iter_ndjson")
@@ -225,8 +227,8 @@ def _sse_typestate(fn: Function, rep: Report) -> None:
                 and c.args and isinstance(c.args[0], ast.Name) and c.args[0].id == lv:
             acc = c.func.value.id
     if acc is None:
-        rep.violation("R18.2", sub0 + " accumulator", f"{fn.fq}|no-accumulator",
-                      "no `<list>.append(line)` accumulator: lines of one event are not collected", fn.loc())
+        # the line accumulation is not in this function (e.g. moved into another generator it iterates): the recogniser has nothing to judge
+        rep.error(f"R18.2: cannot find the `<list>.append(line)` accumulator of {fn.qualname} (anchor)")
         return
 
     cfg = CFG(fn.node)
@@ -387,9 +389,14 @@ def _parse_event_rules(fn: Function, rep: Report) -> None:
         return
     lv = loops[0].target.id if isinstance(loops[0].target, ast.Name) else "line"
     # comment test
-    comment_tests = [n for n in cfg.nodes if n.kind == "test" and isinstance(n.ast, ast.Call) and isinstance(n.ast.func, ast.Attribute)
-                     and n.ast.func.attr == "startswith" and n.ast.args and const_str(n.ast.args[0]) == ":"
-                     and isinstance(n.ast.func.value, ast.Name) and n.ast.func.value.id == lv]
+    def _is_comment_call(e: ast.AST) -> bool:
+        return isinstance(e, ast.Call) and isinstance(e.func, ast.Attribute) and e.func.attr == "startswith" and bool(e.args) and const_str(e.args[0]) == ":" \
+            and isinstance(e.func.value, ast.Name) and e.func.value.id == lv
+
+    # `if line.startswith(":")` - or as one alternative of an `or` (`if line.startswith(":") or ":" not in line: continue`): its true branch
+    # is taken for every comment line either way
+    comment_tests = [n for n in cfg.nodes if n.kind == "test" and (_is_comment_call(n.ast) or (
+        isinstance(n.ast, ast.BoolOp) and isinstance(n.ast.op, ast.Or) and any(_is_comment_call(v) for v in n.ast.values)))]
     splits = [n for n in cfg.nodes if n.kind == "stmt" and n.ast is not None and any(
         isinstance(c.func, ast.Attribute) and c.func.attr in ("split", "partition") for c in calls_in(n.ast))]
     rep.require(bool(splits), "R18.3: no field split in _parse_sse_event")
